@@ -22,7 +22,7 @@ RULE = ("grammar-generated metadata files (string values with '=', spaces, >=2 d
         "or >= 1 tilde key; distinct = distinct (kind, stream, n, gains-hash, fs, range) / distinct generated file")
 ASSUMPTIONS = ["only in-grammar files: every line has '=', numeric values are canonical decimals or integer lists (no trailing commas, "
                "no float lists)", "float32 precision of the conversion vector (rtol 1e-6)"]
-REQUIRED = {"roundtrip_files": 50, "values_checked": 500, "derived_files": 30, "s2v_checked": 30, "fixtures_checked": 10, "nidq_3a_run_headers": 5}
+REQUIRED = {"uuid_tagged_stream_files": 10, "roundtrip_files": 50, "values_checked": 500, "derived_files": 30, "s2v_checked": 30, "fixtures_checked": 10, "nidq_3a_run_headers": 5}
 CASE_TIMEOUT = 60.0
 
 
@@ -280,6 +280,34 @@ def run_case(case):
                     nt += 1
             except Exception as e:
                 res.exception("derived:exception", e, f"kind {k}")
+        # round 23: the folder of one NP1 run as a data server stores it - AP, LF (and nidq) streams side by side, every file carrying its own dataset
+        # uuid in its name, so that a binary and its header do NOT share their full name.  A Reader on each binary derives the quantities of ITS stream
+        try:
+            import uuid as _uuid
+            kf = str(rng.choice(["3B2", "3A", "3B1"]))
+            fold = d / "run-folder"
+            fold.mkdir()
+            gains = G.random_gains(rng)
+            made = {}
+            for stream in ("ap", "lf"):
+                recs = G.make(rng, kind=kf, stream=stream, gains=gains, ns=int(rng.integers(30, 300)), content="random")
+                stem = f"run_g0_t0.imec0.{stream}"
+                b0 = G.write(recs, fold, name=stem)
+                b1 = fold / f"{stem}.{_uuid.UUID(int=int(rng.integers(1, 2 ** 62)), version=4)}.bin"
+                b0.rename(b1)
+                (fold / f"{stem}.meta").rename(fold / f"{stem}.{_uuid.UUID(int=int(rng.integers(1, 2 ** 62)), version=4)}.meta")
+                made[stream] = (b1, recs)
+            for stream, (b1, recs) in made.items():
+                lab = f"{kf} run folder with uuid-tagged ap and lf files: Reader({stream} binary)"
+                srs = spikeglx.Reader(b1)
+                s2v = np.asarray(srs.sample2volts, float)
+                res.check(srs.type == stream and srs.fs == recs.fs and srs.ns == recs.ns and s2v.shape == (recs.nc,) and np.allclose(s2v, recs.s2v, rtol=1e-6, atol=0),
+                          "derived:stream-of-uuid-tagged-file", f"{lab}: type {srs.type} fs {srs.fs} ns {srs.ns} (expected {stream}, {recs.fs}, {recs.ns}); volts per bit "
+                          f"{'agree' if s2v.shape == (recs.nc,) and np.allclose(s2v, recs.s2v, rtol=1e-6, atol=0) else 'differ'} - header used: {Path(srs.file_meta_data).name}",
+                          counter="uuid_tagged_stream_files")
+                srs.close()
+        except Exception as e:
+            res.exception("derived:stream-of-uuid-tagged-file:exception", e, "run folder with uuid-tagged files")
         res.sig = f"derived-{case['seed']}"
     elif cls == "fixtures":
         import os
